@@ -137,6 +137,31 @@ func TestVerifReplay(t *testing.T) {
 '''
 
 
+def rewrite_morass(src):
+    """native replay only: route the temp-file/gob call sites of morass.go through the pass-through
+    wrappers of the harness, which count operations and inject the solver-chosen fault"""
+    X = r"((?:\w+\.)*\w+)"
+    src = re.sub(r"\bioutil\.TempDir\(", "verifTempDir(", src)
+    src = re.sub(r"\bioutil\.TempFile\(", "verifTempFile(", src)
+    src = re.sub(X + r"\.Encode\(", r"verifEncode(\1, ", src)
+    src = re.sub(X + r"\.Decode\(", r"verifDecode(\1, ", src)
+    src = re.sub(X + r"\.Sync\(\)", r"verifSync(\1)", src)
+    src = re.sub(X + r"\.Seek\(", r"verifSeek(\1, ", src)
+    src = re.sub(X + r"\.file\.Close\(\)", r"verifClose(\1.file)", src)
+    src = re.sub(r"\bos\.RemoveAll\(", "verifRemoveAll(", src)
+    src = re.sub(r"\bos\.Remove\(", "verifRemove(", src)
+    # imports that became unused
+    code = "\n".join(l for l in src.split("\n") if not l.strip().startswith("//"))
+    if not re.search(r"\bioutil\.", code):
+        src = src.replace('\t"io/ioutil"\n', '\t_ "io/ioutil"\n')
+    if not re.search(r"\bos\.", code):
+        src = src.replace('\t"os"\n', '\t_ "os"\n')
+    return src
+
+
+NATIVE_REWRITES = {"morass": rewrite_morass}
+
+
 def native_replay(pid, overlay, names, replay_dir, gen, timeout_s=300):
     """runs the replay files natively; returns {file: native result or None}"""
     files = sorted(glob.glob(os.path.join(replay_dir, "*.json")))
@@ -157,6 +182,10 @@ def native_replay(pid, overlay, names, replay_dir, gen, timeout_s=300):
         open(tf, "w").write(REPLAY_TEST % {"pkg": pkgname, "reg": reg, "path": path})
         ov[os.path.join(REPO, pd, "zz_verif_replay_test.go")] = tf
         pkgs.append("./" + pd)
+    for rel, how in (checks.CHECKS[pid].get("native_rewrite") or {}).items():
+        rw = os.path.join(gen, rel.replace("/", "_"))
+        open(rw, "w").write(NATIVE_REWRITES[how](open(os.path.join(REPO, rel)).read()))
+        ov[os.path.join(REPO, rel)] = rw
     ovf = os.path.join(gen, "overlay.json")
     json.dump({"Replace": ov}, open(ovf, "w"))
     env = dict(GOENV, VERIF_REPLAY_DIR=replay_dir)
@@ -193,7 +222,7 @@ def run_check(pid, tier):
               "params": j.get("params", {}), "math": j.get("math", False), "witnesses": j.get("witnesses", 2),
               "known_ids": known_ids, "timeout_s": j.get("timeout_s", 600 if tier == "quick" else 3000)}
         for k in ("sched", "preempt", "max_paths", "max_instrs", "unwind", "split_cap", "max_violations", "models",
-                  "init_allow", "noifconv", "solver"):
+                  "init_allow", "noifconv", "solver", "oneshot_min", "fsmodel", "max_faults"):
             if k in j:
                 gj[k] = j[k]
         gjobs.append(gj)
